@@ -74,7 +74,7 @@ class Soap12(Soap11):
         return value, faultstrings
 
     def generate_faultcode(self, element):
-        nsmap = element.nsmap
+        nsmap = {'soap': self.ns_soap_env}
         faultcode = []
         faultcode.append(element.find('soap:Code/soap:Value', namespaces=nsmap).text)
         subcode = element.find('soap:Code/soap:Subcode', namespaces=nsmap)
@@ -152,7 +152,7 @@ class Soap12(Soap11):
         return self._fault_to_parent_impl(ctx, cls, inst, parent, ns, subelts)
 
     def fault_from_element(self, ctx, cls, element):
-        nsmap = element.nsmap
+        nsmap = {'soap': self.ns_soap_env}
 
         code = self.generate_faultcode(element)
         reason = element.find("soap:Reason/soap:Text", namespaces=nsmap).text.strip()
@@ -161,8 +161,8 @@ class Soap12(Soap11):
         detail = element.find("soap:Detail", namespaces=nsmap)
         faultactor = ''
         if role is not None:
-            faultactor += role.text.strip()
+            faultactor += (role.text or '').strip()
         if node is not None:
-            faultactor += node.text.strip()
+            faultactor += (node.text or '').strip()
         return cls(faultcode=code, faultstring=reason,
                    faultactor=faultactor, detail=detail)
